@@ -50,6 +50,8 @@ SmallPool == { R("min", NV(N0)), R("max", NV(N10)), R("max", NV(N0)), R("exclusi
                R("type", IdV("decimal")), R("type", IdV("email")), R("type", IdV("any")), R("type", TRef("@T")), R("type", IdV("string")) }
 TinyPool == { R("nullable", BV(FALSE)), R("const", BV(FALSE)), R("min", NV(N0)), R("type", TRef("@T")),
               R("or", [t |-> "list", items |-> <<IdV("integer"), IdV("float"), IdV("string"), IdV("boolean"), IdV("null")>>]), R("optional", BV(TRUE)) }
+CompanionPool == { R("enum", [t |-> "list", items |-> AllKinds]), R("optional", BV(TRUE)), R("nullable", BV(TRUE)), R("const", BV(FALSE)), R("nullable", BV(FALSE)),
+                   R("type", TRef("@T")) }
 Kinds == {"int", "flt", "str", "bool", "null", "obj0", "obj1", "arr0", "arr2"}
 Positions == {"root", "prop", "elem"}
 
@@ -58,6 +60,7 @@ Init == /\ kind \in Kinds /\ pos \in Positions
         /\ \/ rules \in UNION {[1..k -> Pool] : k \in 0..(IF MaxRules > 2 THEN 2 ELSE MaxRules)}
            \/ (MaxRules >= 3 /\ rules \in [1..3 -> SmallPool])
            \/ rules \in [1..3 -> TinyPool]                       \* always: triples around the inert false-valued rules
+           \/ rules \in [1..3 -> CompanionPool]                  \* always: an exclusive rule with two of its permitted companions
 Next == UNCHANGED <<kind, pos, rules>>
 Spec == Init /\ [][Next]_<<kind, pos, rules>>
 Node == NodeOf(kind, rules)
